@@ -93,3 +93,142 @@ def lemma_nth_rest_step(s: bytes, k: int) -> None:
     """nth_rest(s, k + 1) == rest_of(nth_rest(s, k))"""
     if k > 0:
         lemma_nth_rest_step(rest_of(s), k - 1)
+
+
+# ---- what the encoder's list relation means element by element (used by the round-trip lemmas)
+def lemma_strs_enc_nth(s: bytes, xs: seqstr, i: int, n: int, cls: int, num: int, q: int) -> None:
+    """strs_enc(s, xs, i, n) and i <= q < n:  the (q - i)-th element of s has content utf8(xs[q])."""
+    lemma_tlv_roundtrip(take(s, tlv_len(s)), cls, False, num, utf8(xs[i]), drop(s, tlv_len(s)))
+    assert cat(take(s, tlv_len(s)), drop(s, tlv_len(s))) == s
+    assert rest_of(s) == drop(s, tlv_len(s))
+    if q > i:
+        lemma_strs_enc_nth(drop(s, tlv_len(s)), xs, i + 1, n, cls, num, q)
+        assert nth_rest(s, q - i) == nth_rest(rest_of(s), q - i - 1)
+    else:
+        assert nth_rest(s, 0) == s
+
+
+def lemma_strs_enc_end(s: bytes, xs: seqstr, i: int, n: int, cls: int, num: int) -> None:
+    """strs_enc(s, xs, i, n) and i <= n:  after n - i elements nothing is left."""
+    if i < n:
+        lemma_tlv_roundtrip(take(s, tlv_len(s)), cls, False, num, utf8(xs[i]), drop(s, tlv_len(s)))
+        assert cat(take(s, tlv_len(s)), drop(s, tlv_len(s))) == s
+        assert rest_of(s) == drop(s, tlv_len(s))
+        lemma_strs_enc_end(drop(s, tlv_len(s)), xs, i + 1, n, cls, num)
+        assert nth_rest(s, n - i) == nth_rest(rest_of(s), n - i - 1)
+    else:
+        assert nth_rest(s, 0) == s
+
+
+def lemma_opt_single(e: bytes, num: int, value: bytes, has: bool, other: int) -> None:
+    """One optional context-tagged element [num] (or nothing): the fold for [num] yields it, the fold for another tag yields nothing."""
+    if has:
+        lemma_tlv_roundtrip(e, 2, False, num, value, empty())
+        lemma_tlv_prefix(e, empty())
+        assert cat(e, empty()) == e
+        assert len(e) >= 2
+        assert ctx_is(e, num)
+        assert not ctx_is(e, other)
+        assert rest_of(e) == empty()
+        assert opt_none(rest_of(e), num, False) == False
+        assert opt_val(rest_of(e), num, value) == value
+        assert opt_none(rest_of(e), other, True)
+    else:
+        assert opt_none(empty(), num, True)
+        assert opt_none(empty(), other, True)
+
+
+def lemma_opt_pair(ea: bytes, na: int, va: bytes, has_a: bool, eb: bytes, nb: int, vb: bytes, has_b: bool) -> None:
+    """Two optional context-tagged elements with different numbers, in this order: each fold finds its own."""
+    if has_a:
+        lemma_tlv_roundtrip(ea, 2, False, na, va, ite(has_b, eb, empty()))
+        lemma_tlv_prefix(ea, ite(has_b, eb, empty()))
+        assert len(cat(ea, ite(has_b, eb, empty()))) >= 2
+        assert ctx_is(cat(ea, ite(has_b, eb, empty())), na)
+        assert not ctx_is(cat(ea, ite(has_b, eb, empty())), nb)
+        assert rest_of(cat(ea, ite(has_b, eb, empty()))) == ite(has_b, eb, empty())
+        lemma_opt_single(eb, nb, vb, has_b, na)
+        if has_b:
+            lemma_tlv_roundtrip(eb, 2, False, nb, vb, empty())
+            lemma_tlv_prefix(eb, empty())
+            assert cat(eb, empty()) == eb
+            assert not ctx_is(eb, na)
+            assert rest_of(eb) == empty()
+            assert opt_none(eb, na, False) == False
+            assert opt_val(eb, na, va) == va
+        else:
+            assert opt_none(empty(), na, False) == False
+            assert opt_val(empty(), na, va) == va
+    else:
+        assert cat(empty(), ite(has_b, eb, empty())) == ite(has_b, eb, empty())
+        lemma_opt_single(eb, nb, vb, has_b, na)
+
+
+def lemma_rt_ldap_result(e_code: bytes, c_code: bytes, e_dn: bytes, dn_b: bytes, e_msg: bytes, msg_b: bytes,
+                         e_ref: bytes, c_ref: bytes, has_ref: bool, tail: bytes) -> None:
+    """Reading the three / four LDAPResult components back from what the encoder appended (whatever follows in `tail`)."""
+    lemma_tlv_roundtrip(e_code, 0, False, 10, c_code, cat(e_dn, e_msg, ite(has_ref, e_ref, empty()), tail))
+    lemma_tlv_roundtrip(e_dn, 0, False, 4, dn_b, cat(e_msg, ite(has_ref, e_ref, empty()), tail))
+    lemma_tlv_roundtrip(e_msg, 0, False, 4, msg_b, cat(ite(has_ref, e_ref, empty()), tail))
+    if has_ref:
+        lemma_tlv_roundtrip(e_ref, 2, True, 3, c_ref, tail)
+        lemma_tlv_prefix(e_ref, tail)
+        assert len(cat(e_ref, tail)) >= 2
+    else:
+        assert cat(empty(), tail) == tail
+
+
+# ---- round trip theorems (C01): the encoder's postcondition (C03) and the decoder's postcondition (C04), both as hypotheses over
+# the same octets E, imply that every decoded field equals the encoded one.  Text fields need  unutf8(utf8(t)) == t  (text that has
+# an encoding decodes back to itself): stated as a hypothesis, it is the A-UTF8 assumption of the model made explicit.
+def thm_rt_bind_response(e_code: bytes, c_code: bytes, code: int, e_dn: bytes, dn_b: bytes, e_msg: bytes, msg_b: bytes,
+                         e_ref: bytes, c_ref: bytes, has_ref: bool, e_creds: bytes, creds: bytes, has_creds: bool,
+                         d_code: int, d_dn_b: bytes, d_msg_b: bytes, d_has_ref: bool, d_creds_none: bool, d_creds: bytes) -> None:
+    lemma_rt_ldap_result(e_code, c_code, e_dn, dn_b, e_msg, msg_b, e_ref, c_ref, has_ref, ite(has_creds, e_creds, empty()))
+    lemma_opt_single(e_creds, 7, creds, has_creds, 3)
+    if has_creds:
+        lemma_tlv_roundtrip(e_creds, 2, False, 7, creds, empty())
+        assert cat(e_creds, empty()) == e_creds
+
+
+def thm_rt_extended_response(e_code: bytes, c_code: bytes, code: int, e_dn: bytes, dn_b: bytes, e_msg: bytes, msg_b: bytes,
+                             e_ref: bytes, c_ref: bytes, has_ref: bool, e_name: bytes, name_b: bytes, has_name: bool,
+                             e_value: bytes, value: bytes, has_value: bool,
+                             d_code: int, d_dn_b: bytes, d_msg_b: bytes, d_has_ref: bool,
+                             d_name_none: bool, d_name_b: bytes, d_value_none: bool, d_value: bytes) -> None:
+    # what follows the result starts with [10], with [11], or is empty: never with [3]
+    if has_name:
+        lemma_tlv_roundtrip(e_name, 2, False, 10, name_b, ite(has_value, e_value, empty()))
+        assert id_number(cat(ite(has_name, e_name, empty()), ite(has_value, e_value, empty()))) == 10
+    else:
+        assert cat(empty(), ite(has_value, e_value, empty())) == ite(has_value, e_value, empty())
+        if has_value:
+            lemma_tlv_roundtrip(e_value, 2, False, 11, value, empty())
+            assert cat(e_value, empty()) == e_value
+            assert id_number(cat(ite(has_name, e_name, empty()), ite(has_value, e_value, empty()))) == 11
+        else:
+            assert len(cat(ite(has_name, e_name, empty()), ite(has_value, e_value, empty()))) == 0
+    lemma_rt_ldap_result(e_code, c_code, e_dn, dn_b, e_msg, msg_b, e_ref, c_ref, has_ref,
+                         cat(ite(has_name, e_name, empty()), ite(has_value, e_value, empty())))
+    lemma_opt_pair(e_name, 10, name_b, has_name, e_value, 11, value, has_value)
+
+
+def lemma_strs_enc_nonempty(s: bytes, xs: seqstr, i: int, n: int, cls: int, num: int, q: int) -> None:
+    """strs_enc(s, xs, i, n) and i <= q < n:  the (q - i)-th suffix is not empty (it starts with a complete element)."""
+    assert len(s) > 0
+    if q > i:
+        assert rest_of(s) == drop(s, tlv_len(s))
+        lemma_strs_enc_nonempty(drop(s, tlv_len(s)), xs, i + 1, n, cls, num, q)
+        assert nth_rest(s, q - i) == nth_rest(rest_of(s), q - i - 1)
+    else:
+        assert nth_rest(s, 0) == s
+
+
+def thm_rt_referrals(c_ref: bytes, xs: seqstr, n: int, count: int, q: int) -> None:
+    """Encoder: c_ref holds the n URIs xs[0:n].  Decoder: it stopped after `count` elements (the count-th suffix is empty, the earlier
+    ones are not).  Then count == n, and the q-th decoded URI is unutf8 of utf8(xs[q])."""
+    lemma_strs_enc_end(c_ref, xs, 0, n, 0, 4)
+    if count < n:
+        lemma_strs_enc_nonempty(c_ref, xs, 0, n, 0, 4, count)
+    if 0 <= q and q < n:
+        lemma_strs_enc_nth(c_ref, xs, 0, n, 0, 4, q)
